@@ -470,6 +470,13 @@ func fetchDocWithIDAndItsSubDocs(node planNode, docID string) (immutable.Option[
 
 	node.Prefixes(prefixes)
 
+	// The document is addressed by its docID. A secondary index that was selected to serve
+	// the scan's own filter or ordering would make the fetcher ignore the docID prefix and
+	// yield whichever document comes first in the index, so it must not be used for this lookup.
+	index := scan.index
+	scan.index = immutable.None[client.IndexDescription]()
+	defer func() { scan.index = index }()
+
 	if err := node.Init(); err != nil {
 		return immutable.None[core.Doc](), NewErrSubTypeInit(err)
 	}
